@@ -562,4 +562,84 @@ theorem matchesComplex_eq_pred (cx : Complex) (hok : complexOk cx = true) (e : E
   obtain ⟨ok1, ok2⟩ := revTail_ok cx.tail cx.head [] hok.1 (by simp) hok.2
   rw [h.1, h.2]
   exact matchesRev_eq_pred _ _ e anc ok1 ok2
+
+/-! ## assembly -/
+
+theorem mem_matchingIds (L : Leaf) (sels : List SelList) (e : Elem) (anc : List Elem) (i : Nat) :
+    i ∈ matchingIds L sels e anc ↔
+      ∃ sl, sels[i]? = some sl ∧ ∃ cx ∈ sl, matchesComplex L cx e anc = true := by
+  unfold matchingIds
+  simp only [List.mem_filter, List.mem_range]
+  constructor
+  · rintro ⟨hlt, h⟩
+    cases hs : sels[i]? with
+    | none => simp [hs] at h
+    | some sl =>
+      simp only [hs, «matches», List.any_eq_true] at h
+      exact ⟨sl, rfl, h⟩
+  · rintro ⟨sl, hs, cx, hcx, hm⟩
+    refine ⟨(List.getElem?_eq_some_iff.mp hs).1, ?_⟩
+    simp only [hs, «matches», List.any_eq_true]
+    exact ⟨cx, hcx, hm⟩
+
+theorem matchingIds_sorted (L : Leaf) (sels : List SelList) (e : Elem) (anc : List Elem) :
+    (matchingIds L sels e anc).Pairwise (· < ·) := by
+  unfold matchingIds
+  exact List.Pairwise.sublist List.filter_sublist List.pairwise_lt_range
+
+theorem selsOk_complex {sels : List SelList} (hok : selsOk sels = true) {i : Nat} {sl : SelList}
+    (hs : sels[i]? = some sl) {cx : Complex} (hcx : cx ∈ sl) : complexOk cx = true := by
+  unfold selsOk at hok
+  simp only [List.all_eq_true] at hok
+  exact hok sl (List.mem_of_getElem? hs) cx hcx
+
+/-- On the program compiled from the registered selectors, the ids of the instructions activated at
+    an element are the selectors that match it (leaves as coded), provided every `:not()` argument is a
+    single plain simple selector. -/
+theorem denotation_eq_css (sels : List SelList) (hok : selsOk sels = true) (e : Elem) (anc : List Elem) (i : Nat) :
+    i ∈ matchingIds codeLeaf sels e anc ↔
+      ∃ a b, Act (compile (Ast.ofSelectors sels)) (compile (Ast.ofSelectors sels)).enableNthOfType e anc a b ∧
+        i ∈ b.matchedIds := by
+  obtain ⟨hroot, hentry, hnth⟩ := compile_layout (Ast.ofSelectors sels) (ofSelectors_count sels)
+  rw [mem_matchingIds]
+  constructor
+  · rintro ⟨sl, hs, cx, hcx, hm⟩
+    rw [matchesComplex_eq_pred cx (selsOk_complex hok hs hcx)] at hm
+    have hh : HasF (Ast.ofSelectors sels).root (fwdPath (revPath (complexToPath cx).1)) (complexToPath cx).2 i := by
+      rw [fwdPath_revPath, hasF_ofSelectors]
+      exact ⟨sl, hs, cx, hcx, rfl⟩
+    obtain ⟨n, a, hat, hp, hi⟩ := (at_iff_hasF hroot _ _ _).mpr hh
+    obtain ⟨j, hj, hinstr⟩ := (hat.compiled hroot).instr
+    refine ⟨a, _, (act_iff _ _ _ hroot hentry hnth e anc a _).mpr ⟨_, n, hat, by rw [hp]; exact hm, _, hinstr, rfl⟩, ?_⟩
+    simpa [compilePredicate] using hi
+  · rintro ⟨a, b, hact, hi⟩
+    obtain ⟨σ, n, hat, hp, i0, hinstr, hb⟩ := (act_iff _ _ _ hroot hentry hnth e anc a b).mp hact
+    obtain ⟨j, hj, hinstr'⟩ := (hat.compiled hroot).instr
+    rw [hinstr] at hinstr'; cases hinstr'
+    have hi' : i ∈ n.matchIds := by rw [← hb] at hi; simpa [compilePredicate] using hi
+    have hh := (at_iff_hasF hroot σ n.predicate i).mp ⟨n, a, hat, rfl, hi'⟩
+    rw [hasF_ofSelectors] at hh
+    obtain ⟨sl, hs, cx, hcx, hpath⟩ := hh
+    refine ⟨sl, hs, cx, hcx, ?_⟩
+    rw [matchesComplex_eq_pred cx (selsOk_complex hok hs hcx), hpath]
+    simpa [revPath_fwdPath] using hp
+
+/-- Partial correctness of the whole pipeline. -/
+theorem runSelectors_eq_css_of_ok (sels : List SelList) (hok : selsOk sels = true) (esi : Bool)
+    (evs : List Event) (res : List (Nat × Nat)) (h : runSelectors sels esi evs = .ok res) :
+    res = Spec.Css.run codeLeaf sels esi evs := by
+  unfold runSelectors at h
+  simp only [bind, Except.bind] at h
+  split at h
+  · cases h
+  · rename_i r hr
+    simp only [pure, Except.pure, Except.ok.injEq] at h
+    subst h
+    obtain ⟨vm', res⟩ := r
+    unfold Spec.Css.run
+    rw [runAux_eq_runWith]
+    exact SemInv.runAux (prog := compile (Ast.ofSelectors sels)) (nth := (compile (Ast.ofSelectors sels)).enableNthOfType)
+      (fun e anc i => denotation_eq_css sels hok e anc i)
+      (fun e anc => matchingIds_sorted _ _ _ _) evs _ vm' {} 0 [] res rfl rfl
+      (SemInv.init _ esi) hr
 end LolHtml.SelVM
